@@ -651,6 +651,9 @@ func (x *Exec) run() {
 		t := x.freshOf(s, p.Type(), "p$"+name)
 		s.env[p] = TermVal{t}
 		x.params[name] = SVal{T: t, GT: p.Type()}
+		if t.Sort == smt.Ref {
+			x.assumeAllocated(s, t)
+		}
 		if _, ok := p.Type().Underlying().(*types.Slice); ok {
 			// parameter slices: content may be changed through callee assigns (post(b)); origin is the param cell, found at first store
 		}
@@ -1449,5 +1452,12 @@ func (x *Exec) assumeAllocated(s *State, r *smt.Term) {
 	if !ok {
 		cur = x.entryAlloc()
 	}
-	s.assume(smt.Or(smt.Eq(r, RefNil), smt.Select(cur, r)))
+	// a reference read from the unmodified entry heap (or a parameter) was allocated at entry
+	if r.Op == "var" && strings.HasPrefix(r.Name, "p$") {
+		cur = x.entryAlloc()
+	}
+	if r.Op == "select" && r.Args[0].Op == "var" && strings.HasSuffix(r.Args[0].Name, "@"+x.epoch) {
+		cur = x.entryAlloc()
+	}
+	s.assume(smt.Or(smt.Eq(r, RefNil), smt.Select(cur, RootOf(r))))
 }
